@@ -448,6 +448,9 @@ pub struct GenParams {
   /// one add in six is wrapped in savepoint() ... rollback_to(): only with one
   /// live handle at a time
   pub savepoints: bool,
+  /// now and then a handle deletes every id, commits, and the index is
+  /// compacted (an index whose segments hold no live document)
+  pub purge: bool,
 }
 
 /// Generates a history that is valid in its own context (ops refer to live
@@ -461,6 +464,15 @@ pub fn gen_ops(rng: &mut Rng, cfg: &Cfg, p: &GenParams) -> Vec<Op> {
   let mut next_r = 0usize;
   let ids: Vec<String> = id_names(cfg);
   while ops.len() < p.len {
+    if p.purge && !live.is_empty() && rng.chance(1, 12) {
+      let h = *rng.pick(&live);
+      for id in ids.iter().take(8) {
+        ops.push(Op::Delete { h, id: id.clone() });
+      }
+      ops.push(Op::Commit { h });
+      ops.push(Op::Compact);
+      continue;
+    }
     let mut w = p.weights;
     if live.is_empty() {
       w[1] = 0;
